@@ -59,6 +59,15 @@ CLAIMED["C11"] = dict(
     text="Exploration: observers on every live type of every replica of hostile multi-replica histories; applying each reported text delta / change list / key change set (old values checked) to the observer's previous copy must give exactly the content readable after the transaction, for local and remote transactions alike; one firing per observer and transaction; changed types must reach the deep observer of their root with a path that resolves to them; a type whose rendered content did not change must not fire (events with an empty delta / empty key set are the known finding D8; retain-only deltas that restate attributes are accepted).",
     design="DESIGN.md section 3 C11")
 
+CLAIMED["C03"] = dict(
+    technique="runtime monitoring: executable reference models (string-with-attributes / vector / dictionary / tree) run in lock-step with the real document, compared after every call",
+    text="Exploration with an exact oracle: every valid call of generated single-replica programs is applied to the real document and to naive reference models; canonical dumps must agree after every call, after every commit (squash), after forced gc and after a full-state round trip into a fresh document (v1/v2), in both offset units with multi-byte and astral characters, gc on and off, nesting to depth 3. try_update / remove / get_or_init return values are checked against the model as well.",
+    design="DESIGN.md section 3 C03")
+CLAIMED["C12"] = dict(
+    technique="runtime monitoring: undo/redo stacks mirrored from public observations with recorded before/after dumps per captured step (injected clock)",
+    text="Exploration: for programs mixing tracked edits, clock ticks, undo, redo, foreign-origin edits, remote updates and forced gc the monitor checks the inverse law (dump equals the recorded dump before / after the deepest popped step) whenever no other origin edited since the step was captured, that a call returning false changes nothing, that the untracked type is unchanged at unit level, that elements of untracked origins stay visible in their order, and that both replicas converge after syncing the undo/redo transactions.",
+    design="DESIGN.md section 3 C12")
+
 NOT_YET = {}
 
 
